@@ -51,7 +51,15 @@ func (check) Plan(tier string, seed int64) []harness.Batch {
 		s, _ := json.Marshal(spec{Kind: "masks", Part: p, Of: 16})
 		bs = append(bs, harness.Batch{Name: fmt.Sprintf("masks-%d", p), Seed: seed + int64(p), Spec: s, TimeoutS: 3000, CaseTimeoutS: 120})
 		s, _ = json.Marshal(spec{Kind: "sequences", N: nseq})
-		bs = append(bs, harness.Batch{Name: fmt.Sprintf("sequences-%d", p), Seed: seed*31 + int64(p), Spec: s, TimeoutS: 3000, CaseTimeoutS: 120})
+		sb := harness.Batch{Name: fmt.Sprintf("sequences-%d", p), Seed: seed*31 + int64(p), Spec: s, TimeoutS: 3000, CaseTimeoutS: 120}
+		if p%4 == 3 {
+			// the legacy-SGR quirk rewrites the renderer's colour sequences to the
+			// semicolon form when a Vaxis starts: producers and consumers must
+			// still agree, and the codecs must not depend on it
+			sb.Name = fmt.Sprintf("sequences-legacy-sgr-%d", p)
+			sb.Env = []string{"VAXIS_FORCE_LEGACY_SGR=1"}
+		}
+		bs = append(bs, sb)
 		s, _ = json.Marshal(spec{Kind: "fuzz", N: nfuzz})
 		bs = append(bs, harness.Batch{Name: fmt.Sprintf("fuzz-%d", p), Seed: seed*37 + int64(p), Spec: s, TimeoutS: 3000, CaseTimeoutS: 120})
 	}
